@@ -112,6 +112,8 @@ var clientShapes = []struct {
 	{"pa-once", []httpwire.Field{{Name: "Proxy-Authorization", Value: "Basic " + base64.StdEncoding.EncodeToString([]byte(clientPA))}}, false, ""},
 	{"pa-twice", []httpwire.Field{{Name: "Proxy-Authorization", Value: "Basic " + base64.StdEncoding.EncodeToString([]byte(clientPA))}, {Name: "X-Mid", Value: "1"}, {Name: "Proxy-Authorization", Value: "Basic " + base64.StdEncoding.EncodeToString([]byte(clientPA))}}, false, ""},
 	{"pa-nominated", []httpwire.Field{{Name: "Connection", Value: "Proxy-Authorization"}, {Name: "Proxy-Authorization", Value: "Basic " + base64.StdEncoding.EncodeToString([]byte(clientPA))}}, false, ""},
+	{"pa-nominated-in-upgrade-request", []httpwire.Field{{Name: "Connection", Value: "Upgrade, Proxy-Authorization"}, {Name: "Upgrade", Value: "websocket"}, {Name: "Proxy-Authorization", Value: "Basic " + base64.StdEncoding.EncodeToString([]byte(clientPA))}}, false, ""},
+	{"pa-in-upgrade-request", []httpwire.Field{{Name: "Connection", Value: "Upgrade"}, {Name: "Upgrade", Value: "websocket"}, {Name: "Proxy-Authorization", Value: "Basic " + base64.StdEncoding.EncodeToString([]byte(clientPA))}}, false, ""},
 	{"pa-mixed-case", []httpwire.Field{{Name: "pRoXy-AuThOrIzAtIoN", Value: "Basic " + base64.StdEncoding.EncodeToString([]byte(clientPA))}}, false, ""},
 	{"authorization", []httpwire.Field{{Name: "Authorization", Value: "Basic " + base64.StdEncoding.EncodeToString([]byte(clientAuthz))}}, true, ""},
 	{"authorization-bearer", []httpwire.Field{{Name: "Authorization", Value: "Bearer client-token-abc"}}, true, "Bearer client-token-abc"},
